@@ -152,8 +152,7 @@ def run(ctx):
     ctx.cov["rule"] = ("one evaluation = one spec transition executed on the real library; on every re-key / move / clone edge the real tree is byte-snapshotted before and after: "
                        "payload carried byte-identically, old id gone, every shallow copy follows (id, path, statepoint, cached_statepoint), DestinationExistsError leaves the disk "
                        "untouched, update_statepoint(overwrite=False) conflicts change nothing; plus scripted deepcopy / pickle scenarios; distinct = (config, op, outcome) classes")
-    for c in configs(ctx):
-        F.run_config(ctx, PID, c)
+    F.run_configs(ctx, PID, configs(ctx))
     F.run_recorded(ctx, PID, "random-wide", 50 if ctx.quick else 3000, 40 if ctx.quick else 60,
                    ["open_sp", "open_id", "open_iter", "copy", "readsp", "setkey", "assign", "update_sp", "init", "docset", "writefile", "remove", "move", "clone", "restart"] + F.SPEDITS)
     independent_handles(ctx)
